@@ -70,7 +70,7 @@ def h_cond(cfg):
     def probe(node):
         def cb(ev):
             node.nfired += 1
-            node.proc_step, node.proc_time, node.ok = step[0], env.now, ev._ok
+            node.proc_step, node.proc_time, node.ok = step[0], env.now, ev.ok
         return cb
 
     # leaves exist from t=0
@@ -228,7 +228,7 @@ def h_cond(cfg):
         check('c05.crash-only-for-unhandled-failure', bool(lf), 'crash without failing operand')
         # the crash must be explained by an unabsorbed failure observed at this instant
         expl = [x for x in root.leaves() if x.ok is False and x.proc_step is not None and not absorbed(x)] + \
-               [n for n in nodes if n.ev is not None and n.ev.triggered and not n.ev._ok and not absorbed(n)]
+               [n for n in nodes if n.ev is not None and n.ev.triggered and not n.ev.ok and not absorbed(n)]
         check('c05.operand-failure-counts-as-handled', bool(expl), 'crash although a pending condition took the failure')
         cover('late-failure-crash')
         cover('nontrivial')
